@@ -134,7 +134,8 @@ def strat_history(draw, tier, complete_only=False):
                 "length": draw(st.one_of(st.none(), st.none(),
                                          st.integers(1, 5),
                                          st.integers(1, length))),
-                "start_at": draw(st.integers(0, length + 1))
+                "start_at": draw(st.one_of(st.integers(0, length + 1),
+                                           st.integers(-3, length + 1)))
                 if explicit_pos else None,
                 "tags": draw(st.one_of(
                     st.none(), st.none(),
@@ -296,7 +297,8 @@ def _do_add(model, bf, step, stats):
     ln, start = step["length"], step["start_at"]
     must_reject = None
     if start is not None:
-        if start >= model.length or start + (ln or 1) > model.length:
+        if start < 0 or start >= model.length or \
+                start + (ln or 1) > model.length:
             must_reject = "does not fit inside the bit field"
         else:
             for n, f in model.potential_fields(values):
